@@ -1,4 +1,6 @@
 //! Harness-side reference models and writers transcribed from ISO/IEC 18181
 //! (never from jxl-oxide). Used as oracles under Kani and for native replay.
 pub mod bitwriter;
+pub mod coding;
 pub mod container;
+pub mod modular;
